@@ -513,6 +513,14 @@ async def drive(scen, sched_seed, stop, recorder=None):
             while True:
                 await _settle()
                 if want_stop("between"):
+                    # the world may go on while the consumer holds a payload: further resolvers answer, so that
+                    # results complete which the work queue has not integrated yet when the stop arrives
+                    for _ in range(stop.get("pre", 0)):
+                        g = world.next_gate()
+                        if g is None:
+                            break
+                        world.release(g)
+                        await _settle()
                     if stop["kind"] == "aclose":
                         if not started:
                             out.unstarted_stream_closed = True
@@ -914,6 +922,7 @@ K_TWICE = "stream-source-closed-twice:abort-races-producer-failure"
 K_CANCELLED_LIST = "cancelled-list-completion:class-source-not-closed"
 K_HOOK_EARLY = "hook-fired-before-cancelled-deferred-work-settled"
 K_ABORT_HANG = "abort-with-pending-early-stream-item:consumer-never-released"
+K_UNREACHABLE = "work-of-failed-fragment-or-unintegrated-result:never-cancelled"
 
 ST_CODE = {None: 0, "pending": 1, "fulfilled": 2, "rejected": 3}
 
@@ -1442,6 +1451,14 @@ def extra_scenarios():
                       root={"hero": {"id": 1, "nn": G(err="boom"), "slow": G("s", coro=coro), "name": G("n", coro=coro),
                                      "sub": {"name": G("sn", coro=coro)}}}))
     for sk in ("agen", "aiter"):
+        # sibling fragments; the second one produces a stream and may complete while the consumer holds the
+        # payload of the first one (its result is then not integrated into the work queue when a stop arrives)
+        for n0, gated in ((0, True), (1, False), (1, True)):
+            S.append(dict(name=f"defer-siblings-second-with-stream{n0}-{sk}{'-gated' if gated else ''}", kind="incr",
+                          doc="{ a ... @defer(label: \"A\") { b } ... @defer(label: \"B\") { hero { name kids "
+                              "@stream(initialCount: %d) { id } } } }" % n0,
+                          root={"a": "x", "b": G("y"),
+                                "hero": {"name": G("n"), "kids": SRC(sk, [item(0), item(1), item(2)], gated=gated)}}))
         S.append(dict(name=f"defer-overlap-shared-nonnull-raises-stream-{sk}", kind="incr",
                       doc="{ ... @defer(label: \"X\") { nn b } ... @defer(label: \"Y\") { nn items @stream(initialCount: 0) { id } } }",
                       root={"nn": G(err="boom"), "b": G("y"),
@@ -1572,6 +1589,11 @@ def stop_points(out):
     for i, q in enumerate(out.qps):
         if q == "between":
             pts.append({"kind": "aclose", "at": i})
+            if i > 0:
+                # ... and after one / two more resolvers have answered while the consumer held the payload
+                pts.append({"kind": "aclose", "at": i, "pre": 1})
+                pts.append({"kind": "aclose", "at": i, "pre": 2})
+                pts.append({"kind": "abort", "at": i, "pre": 1})
         pts.append({"kind": "abort", "at": i})
     return pts
 
@@ -1583,6 +1605,13 @@ def canon_key(key, cls, scen, out):
     anext_names = {"async_generator_asend", "World.make_source.<locals>.It.__anext__"}
     if cls in ("task-leak", "source-not-closed") and out.leaked and set(out.leaked) <= anext_names:
         return K_ORPHAN
+    if scen["kind"] == "incr" and cls in ("task-leak", "source-not-closed", "hook-early", "hook-count") \
+            and (any("StreamItemQueue._run" in x for x in (out.leaked or []))
+                 or (cls == "source-not-closed" and not out.leaked and out.stopped is not None
+                     and out.stopped[0] == "aclose")):
+        # a stream (or early started task) carried by the result of a fragment that failed, or by a result that
+        # was not integrated into the work queue when the consumer stopped, is not reachable for cancel()
+        return K_UNREACHABLE
     if cls == "source-closed-twice":
         return K_TWICE
     if cls == "source-not-closed" and not out.leaked:
